@@ -164,7 +164,9 @@ Print Assumptions c01_publication.
 
 (* the order parameters of wait_until_reach_expected_version / set_version are really the ones used for the access *)
 Theorem c01_publication_orders_are_used :
-  Gen_bounded_queue_orders.wait_load_uses_param_order = true /\ Gen_bounded_queue_orders.set_version_uses_param_order = true.
+  Gen_bounded_queue_orders.fast_load_order = 100%Z /\ Gen_bounded_queue_orders.spin_load_order = 100%Z /\
+  Gen_bounded_queue_orders.block_reload_order = 100%Z /\ Gen_bounded_queue_orders.block_cas_order = 100%Z /\
+  Gen_bounded_queue_orders.set_version_order = 100%Z /\ Gen_bounded_queue_orders.version_getter_order = 100%Z.
 Proof. exact bq_param_orders_used. Qed.
 
 (* weakened orders: the racy executions exist (the check's search prints one when the source is weakened) *)
